@@ -191,7 +191,8 @@ pub fn emit_recv(recvs: &[Recv], r: &Recv, out: &mut String) {
             }
             if let Some(with) = r.attrs_field {
                 if with {
-                    out.push_str("    #[darling(with = attrs_count)] pub attrs: usize,\n");
+                    // (every third receiver spells the converter exactly like the field it serves)
+                    out.push_str(if r.id % 3 == 0 { "    #[darling(with = attrs)] pub attrs: usize,\n" } else { "    #[darling(with = attrs_count)] pub attrs: usize,\n" });
                 } else {
                     out.push_str("    pub attrs: Vec<syn::Attribute>,\n");
                 }
@@ -441,6 +442,7 @@ pub const PRELUDE: &str = r#"// @generated by the corpus emitter — a shard of 
 #![allow(dead_code, unused_variables, unused_mut, unused_imports, non_snake_case, clippy::all)]
 
 fn attrs_count(attrs: Vec<syn::Attribute>) -> ::darling::Result<usize> { Ok(attrs.len()) }
+fn attrs(list: Vec<syn::Attribute>) -> ::darling::Result<usize> { Ok(list.len()) }
 fn data_passthrough<V: ::darling::FromVariant, F: ::darling::FromField>(d: &syn::Data) -> ::darling::Result<::darling::ast::Data<V, F>> { ::darling::ast::Data::try_from(d) }
 fn gen_none_with<V>(_m: &syn::Meta) -> ::darling::Result<Option<V>> { Ok(None) }
 trait FlattenMark { fn mark(self) -> Self; fn rejects(&self) -> bool; }
